@@ -9,8 +9,7 @@ Model of block generation and block verification in the miner (C45):
 What is an INPUT here (and an argument of every theorem):
 * the iteration order of the transaction pool (a list; the redis sorted set is not modelled);
 * per pool transaction: the cost estimate (`none` = `EstimateTransactionCost` failed), the fee estimate, whether its
-  function is fee-exempt, `len(TransactionData)`, whether its creation date is outside the time tolerance of the
-  block, whether its function NAME is one of the four built-in names, and the behaviour of the called contract as a
+  function is fee-exempt, `len(TransactionData)`, its creation date, whether its function NAME is one of the four built-in names, and the behaviour of the called contract as a
   FUNCTION OF THE STATE it runs on (`res`, `outLen`): contracts are deterministic (C06), nothing else is assumed;
 * the built-in transactions the generator creates for this round (each kind at most once: `buildInTxns` appends
   every kind at most once), with their cost estimates and contract behaviour;
@@ -24,7 +23,8 @@ Quirks transcribed as coded (each exercised by the correspondence harness):
   estimate `math.MaxInt` with a nil error;
 * the cost test is `>=` in the generator and `>` in the verifier; the generator starts from the cost of ALL built-in
   transactions, the verifier sums the transactions that are in the block;
-* `validateTransaction` computes `txn.Nonce - state.Nonce` in int64;
+* `validateTransaction` computes `txn.Nonce - state.Nonce` in int64; its time test and the verifier's are both relative to
+  the block's creation date (`max(now, previous block's date)`), not to the node's clock;
 * the future list of a sender is stable-sorted by (nonce ascending, fee descending) after every append;
   `checkForCurrent` promotes the longest gap-free run, drops equal nonces as "past", and the promoted list is
   stable-sorted by nonce over ALL senders; the loop over the promoted list indexes a list that grows while it runs;
@@ -62,7 +62,7 @@ structure PTxn where
   estFee : Nat
   exempt : Bool
   bytes  : Nat
-  late   : Bool
+  created : Int               -- CreationDate (seconds)
   bname  : Option BuiltinKind
 
 structure Cfg where
@@ -72,6 +72,7 @@ structure Cfg where
   minBlockSize : Int
   minTxnFee    : Nat
   miner        : Id
+  tol          : Int          -- `transaction.TXN_TIME_TOLERANCE` (seconds)
 
 /-- one transaction of a block. -/
 structure Entry where
@@ -105,9 +106,20 @@ inductive Cls where
   | current | past | future | late
 deriving DecidableEq, Repr
 
+/-- `common.WithinTime(o, ts, seconds)`. -/
+def within (o ts seconds : Int) : Bool := decide (ts ≥ o - seconds) && decide (ts ≤ o + seconds)
+
+/-- the transaction's creation date is outside the tolerance of the BLOCK's creation date `date`. Generator
+(`validateTransaction`) and verifier (`ValidateWrtTimeForBlock(ctx, b.CreationDate, …)`) both measure against the block's
+date, never against their own clocks. -/
+def lateAt (tol date : Int) (p : PTxn) : Bool := !within date p.created tol
+
+/-- `b.CreationDate = common.Now(); if b.CreationDate < b.PrevBlock.CreationDate { b.CreationDate = b.PrevBlock.CreationDate }`. -/
+def blockDate (now prevDate : Int) : Int := if now < prevDate then prevDate else now
+
 /-- `validateTransaction`: class and the state nonce it returns. -/
-def classify (s : St) (p : PTxn) : Cls × Int :=
-  if p.late then (.late, 0)
+def classify (tol date : Int) (s : St) (p : PTxn) : Cls × Int :=
+  if lateAt tol date p then (.late, 0)
   else if !present s.accts p.txn.sender then
     if p.txn.nonce > 1 then (.future, 0) else if p.txn.nonce < 1 then (.past, 0) else (.current, 0)
   else
@@ -173,10 +185,10 @@ def checkForCurrent (g : GS) (p : PTxn) : GS :=
         future := futSet g.future p.txn.sender ⟨r.cn, r.rest⟩ }
 
 /-- `txnProcessorHandlerFunc`: the new state and whether the transaction was put into the block. -/
-def txnProcessor (feeOn : Bool) (g : GS) (p : PTxn) : GS × Bool :=
+def txnProcessor (cfg : Cfg) (date : Int) (g : GS) (p : PTxn) : GS × Bool :=
   if g.incl.any (fun e => e.key = Key.pool p.key) then (g, false)
   else
-    match classify g.st p with
+    match classify cfg.tol date g.st p with
     | (.past, _) => ({ g with past := g.past ++ [p.key] }, false)
     | (.future, n) =>
       let l := (futGet g.future p.txn.sender).getD ⟨0, []⟩
@@ -184,7 +196,7 @@ def txnProcessor (feeOn : Bool) (g : GS) (p : PTxn) : GS × Bool :=
       ({ g with future := futSet g.future p.txn.sender l' }, false)
     | (.late, _) => ({ g with invalid := g.invalid ++ [p.key] }, false)
     | (.current, _) =>
-      let r := step feeOn g.st p.txn (p.res g.st)
+      let r := step cfg.feeOn g.st p.txn (p.res g.st)
       if r.2 = Status.rejected then ({ g with failed := g.failed + 1 }, false)
       else
         let g' : GS := { g with
@@ -199,7 +211,7 @@ inductive Ctl where
 deriving DecidableEq, Repr
 
 /-- `txnIterHandlerFunc`. -/
-def iterHandler (cfg : Cfg) (g : GS) (p : PTxn) : GS × Ctl :=
+def iterHandler (cfg : Cfg) (date : Int) (g : GS) (p : PTxn) : GS × Ctl :=
   if p.txn.value > maxTokenSupply then ({ g with invalid := g.invalid ++ [p.key] }, .error)
   else
     match p.cost with
@@ -209,23 +221,23 @@ def iterHandler (cfg : Cfg) (g : GS) (p : PTxn) : GS × Ctl :=
         ({ g with invalid := g.invalid ++ [p.key] }, .continue)
       else if wrap64 (g.cost + c) ≥ cfg.maxBlockCost then (g, .continue)
       else
-        let r := txnProcessor cfg.feeOn g p
+        let r := txnProcessor cfg date g p
         if !r.2 then (r.1, .continue)
         else
           let g' : GS := { r.1 with cost := wrap64 (r.1.cost + c) }
           if g'.byteSize ≥ cfg.maxByteSize then (g', .stop) else (g', .continue)
 
 /-- `IterateCollection` over the pool in the given order; `true` = the handler returned an error. -/
-def iterate (cfg : Cfg) : GS → List PTxn → GS × Bool
+def iterate (cfg : Cfg) (date : Int) : GS → List PTxn → GS × Bool
   | g, [] => (g, false)
   | g, p :: ps =>
-    match iterHandler cfg g p with
-    | (g', .continue) => iterate cfg g' ps
+    match iterHandler cfg date g p with
+    | (g', .continue) => iterate cfg date g' ps
     | (g', .stop) => (g', false)
     | (g', .error) => (g', true)
 
 /-- the loop over `iterInfo.currentTxns` (an index into a list that `checkForCurrent` extends and re-sorts). -/
-def currentLoop (cfg : Cfg) : Nat → Nat → GS → GS
+def currentLoop (cfg : Cfg) (date : Int) : Nat → Nat → GS → GS
   | 0, _, g => g
   | fuel + 1, i, g =>
     if g.cost < cfg.maxBlockCost ∧ g.byteSize < cfg.maxByteSize then
@@ -237,11 +249,11 @@ def currentLoop (cfg : Cfg) : Nat → Nat → GS → GS
         | some c =>
           if wrap64 (g.cost + c) ≥ cfg.maxBlockCost then g
           else
-            let r := txnProcessor cfg.feeOn g p
+            let r := txnProcessor cfg date g p
             if r.2 then
               let g' : GS := { r.1 with cost := wrap64 (r.1.cost + c) }
-              if g'.byteSize ≥ cfg.maxByteSize then g' else currentLoop cfg fuel (i + 1) g'
-            else currentLoop cfg fuel (i + 1) r.1
+              if g'.byteSize ≥ cfg.maxByteSize then g' else currentLoop cfg date fuel (i + 1) g'
+            else currentLoop cfg date fuel (i + 1) r.1
     else g
 
 /-- the built-in transactions of the round (`buildInTxns`): every kind at most once, in this order. -/
@@ -254,7 +266,7 @@ structure Builtins where
 def tag (k : BuiltinKind) (o : Option PTxn) : List (BuiltinKind × PTxn) :=
   match o with
   | none => []
-  | some p => [(k, { p with bname := some k, late := false })]   -- created with the block's own creation date
+  | some p => [(k, { p with bname := some k })]
 
 def Builtins.list (b : Builtins) : List (BuiltinKind × PTxn) :=
   tag .payFees b.payFees ++ tag .challenge b.challenge ++ tag .rewards b.rewards ++ tag .settings b.settings
@@ -268,22 +280,22 @@ def selfNonce (s : St) (miner : Id) : Int :=
   if present s.accts miner then (get s.accts miner).nonce + 1 else 1
 
 /-- the built-in transaction as it is executed: sent by the generator with its next nonce. -/
-def builtinTxn (cfg : Cfg) (s : St) (b : PTxn) : PTxn :=
-  { b with txn := { b.txn with sender := cfg.miner, nonce := selfNonce s cfg.miner } }
+def builtinTxn (cfg : Cfg) (date : Int) (s : St) (b : PTxn) : PTxn :=
+  { b with txn := { b.txn with sender := cfg.miner, nonce := selfNonce s cfg.miner }, created := date }   -- `CreationDate = b.CreationDate`
 
 /-- the loop over the built-in transactions at the end of `generateBlock`. -/
-def builtinLoop (cfg : Cfg) (waitOver : Bool) : List (BuiltinKind × PTxn) → GS → Int → Except GenErr GS
+def builtinLoop (cfg : Cfg) (date : Int) (waitOver : Bool) : List (BuiltinKind × PTxn) → GS → Int → Except GenErr GS
   | [], g, _ => .ok g
   | (k, b) :: bs, g, n =>
     if !waitOver && decide (n + 1 < cfg.minBlockSize) then .error .insufficient
-    else if (step cfg.feeOn g.st (builtinTxn cfg g.st b).txn ((builtinTxn cfg g.st b).res g.st)).2 = Status.rejected then
-      builtinLoop cfg waitOver bs g (n + 1)          -- `processTxn` failed: logged, not in the block, still counted
+    else if (step cfg.feeOn g.st (builtinTxn cfg date g.st b).txn ((builtinTxn cfg date g.st b).res g.st)).2 = Status.rejected then
+      builtinLoop cfg date waitOver bs g (n + 1)          -- `processTxn` failed: logged, not in the block, still counted
     else
-      builtinLoop cfg waitOver bs
+      builtinLoop cfg date waitOver bs
         { g with
-          st := (step cfg.feeOn g.st (builtinTxn cfg g.st b).txn ((builtinTxn cfg g.st b).res g.st)).1,
-          incl := g.incl ++ [⟨Key.builtin k, builtinTxn cfg g.st b, (step cfg.feeOn g.st (builtinTxn cfg g.st b).txn ((builtinTxn cfg g.st b).res g.st)).2⟩],
-          trace := g.trace ++ [(step cfg.feeOn g.st (builtinTxn cfg g.st b).txn ((builtinTxn cfg g.st b).res g.st)).1] }
+          st := (step cfg.feeOn g.st (builtinTxn cfg date g.st b).txn ((builtinTxn cfg date g.st b).res g.st)).1,
+          incl := g.incl ++ [⟨Key.builtin k, builtinTxn cfg date g.st b, (step cfg.feeOn g.st (builtinTxn cfg date g.st b).txn ((builtinTxn cfg date g.st b).res g.st)).2⟩],
+          trace := g.trace ++ [(step cfg.feeOn g.st (builtinTxn cfg date g.st b).txn ((builtinTxn cfg date g.st b).res g.st)).1] }
         (n + 1)
 
 def builtinsCost : List (BuiltinKind × PTxn) → Int
@@ -291,23 +303,28 @@ def builtinsCost : List (BuiltinKind × PTxn) → Int
   | (_, b) :: bs => wrap64 (b.cost.getD 0 + builtinsCost bs)
 
 /-- pool iteration followed by the loop over the promoted transactions; `true` = the iteration returned an error. -/
-def poolPhase (cfg : Cfg) (prior : St) (pool : List PTxn) (bi : Builtins) (fuel : Nat) : GS × Bool :=
-  if (iterate cfg (GS.init prior (builtinsCost bi.list)) pool).2 then ((iterate cfg (GS.init prior (builtinsCost bi.list)) pool).1, true)
-  else (currentLoop cfg fuel 0 (iterate cfg (GS.init prior (builtinsCost bi.list)) pool).1, false)
+def poolPhase (cfg : Cfg) (date : Int) (prior : St) (pool : List PTxn) (bi : Builtins) (fuel : Nat) : GS × Bool :=
+  if (iterate cfg date (GS.init prior (builtinsCost bi.list)) pool).2 then ((iterate cfg date (GS.init prior (builtinsCost bi.list)) pool).1, true)
+  else (currentLoop cfg date fuel 0 (iterate cfg date (GS.init prior (builtinsCost bi.list)) pool).1, false)
 
 /-- `generateBlock`. -/
-def generate (cfg : Cfg) (prior : St) (pool : List PTxn) (bi : Builtins) (waitOver : Bool) (fuel : Nat) : Except GenErr GS :=
+def generateAt (cfg : Cfg) (date : Int) (prior : St) (pool : List PTxn) (bi : Builtins) (waitOver : Bool) (fuel : Nat) : Except GenErr GS :=
   if bi.list.any (fun b => b.2.cost.isNone) then .error .builtinCost
-  else if (poolPhase cfg prior pool bi fuel).2 then .error .iterError
-  else builtinLoop cfg waitOver bi.list (poolPhase cfg prior pool bi fuel).1 (poolPhase cfg prior pool bi fuel).1.incl.length
+  else if (poolPhase cfg date prior pool bi fuel).2 then .error .iterError
+  else builtinLoop cfg date waitOver bi.list (poolPhase cfg date prior pool bi fuel).1 (poolPhase cfg date prior pool bi fuel).1.incl.length
+
+/-- `generateBlock` on a node whose clock shows `now`, on top of a previous block dated `prevDate`. -/
+def generate (cfg : Cfg) (now prevDate : Int) (prior : St) (pool : List PTxn) (bi : Builtins) (waitOver : Bool) (fuel : Nat) : Except GenErr GS :=
+  generateAt cfg (blockDate now prevDate) prior pool bi waitOver fuel
 
 /-! ## the verifier -/
 
 structure Block where
+  date  : Int          -- CreationDate
   txns  : List Entry
   final : St
 
-def blockOf (g : GS) : Block := ⟨g.incl, g.st⟩
+def blockOf (date : Int) (g : GS) : Block := ⟨date, g.incl, g.st⟩
 
 inductive VErr where
   | dup          -- `Block.Validate`: duplicate transactions
@@ -344,7 +361,7 @@ def reexec (feeOn : Bool) : St → List Entry → Option (St × List Status × L
 /-- `VerifyBlock` (the parts listed in the header). -/
 def verify (cfg : Cfg) (prior : St) (b : Block) : Except VErr Unit :=
   if hasDup (b.txns.map (·.key)) then .error .dup
-  else if b.txns.any (fun e => e.p.late) || hasDup (b.txns.filterMap (fun e => e.p.bname)) then .error .txn
+  else if b.txns.any (fun e => lateAt cfg.tol b.date e.p) || hasDup (b.txns.filterMap (fun e => e.p.bname)) then .error .txn
   else
     match blockCost b.txns with
     | none => .error .costErr
